@@ -158,6 +158,14 @@ pub fn standard_workload<V: Visitor>(v: &mut V, ctx: &mut Ctx, tag: &str, scale_
             ctx.st.exhaustive.push(json!({"name": format!("{name}: every accepted string's value"), "size": total, "completed": true, "instantiations": 3}));
         }
     }
+    {
+        // every scalar in every restricted slot: whatever of it is accepted is a value too
+        let total = gen::for_each_slot_string(w, n, &mut |s: &str| parsed_case(v, ctx, "String", s));
+        ctx.st.add("slot-sweep-strings", total);
+        if ctx.worker == 0 {
+            ctx.st.exhaustive.push(json!({"name": "every Unicode scalar, raw and percent-encoded, in 11 restricted slots: every accepted string's value", "size": 1_112_064u64 * 22, "completed": true}));
+        }
+    }
     let mut r = ctx.rng(&format!("{tag}.g2"));
     for _ in 0..ctx.share(60_000 * scale_q, 1_500_000 * scale_t) {
         let known = r.chance(1, 3);
